@@ -274,6 +274,14 @@ fn value(
     tag: &str,
     i: u64,
 ) -> Bytes {
+    value_n(tag, i, 40)
+}
+
+fn value_n(
+    tag: &str,
+    i: u64,
+    rounds: usize,
+) -> Bytes {
     // incompressible-ish deterministic payload so that the archives are a few KB
     let mut x = 0x9E3779B97F4A7C15u64 ^ (i.wrapping_mul(0x100000001B3)) ^ (tag.len() as u64) << 32;
     for b in tag.bytes() {
@@ -281,7 +289,7 @@ fn value(
     }
     let mut s = String::with_capacity(700);
     s.push_str(tag);
-    for _ in 0..40 {
+    for _ in 0..rounds {
         x ^= x << 13;
         x ^= x >> 7;
         x ^= x << 17;
@@ -295,8 +303,9 @@ fn content(
     tag: &str,
     count: u64,
     base: u64,
+    rounds: usize,
 ) -> Vec<(Bytes, Bytes)> {
-    (1..=count).map(|i| (Bytes::from(format!("k{:02}", base + i)), value(tag, i))).collect()
+    (1..=count).map(|i| (Bytes::from(format!("k{:02}", base + i)), value_n(tag, i, rounds))).collect()
 }
 
 async fn populate<S: StateMachine>(
@@ -388,8 +397,8 @@ async fn fixture<K: Kind>(
         (Bytes::from("k03"), value("old", 3)),
     ];
     let (prev, prev_name) = make_snapshot::<K>(root, "prev", old_kv.clone(), 1, 1).await;
-    let (a, an) = make_snapshot::<K>(root, "A", content("A", 5, 10), 2, max_chunks).await;
-    let (b, bn) = make_snapshot::<K>(root, "B", content("B", 7, 20), 2, max_chunks).await;
+    let (a, an) = make_snapshot::<K>(root, "A", content("A", 5, 10, 40), 2, max_chunks).await;
+    let (b, bn) = make_snapshot::<K>(root, "B", content("B", 7, 20, 1), 2, max_chunks).await;
     assert_eq!(prev_name, "snapshot-3-1.tar.gz");
     assert_eq!(an, "snapshot-5-2.tar.gz");
     assert_eq!(bn, "snapshot-7-2.tar.gz");
